@@ -92,6 +92,27 @@ def run(tier, seed):
                     sig = run_(f, sig)
                 return sig_eq(run_(f ** n, xs), sig), "f**%d" % n
             R.guard("(f**n)(x)-is-f-applied-n-times", {"f": str(f), "n": n}, pw)
+    # rational (non-integer) coefficients: the generated code evaluates them as floats, compared with a tolerance against exact models
+    from .symnum import close
+    xq = [F(i * i - 2 * i + 1) for i in range(7)]
+
+    def exact(b, a, x):
+        y = []
+        for n in range(len(x)):
+            acc = sum(bk * (x[n - k] if n - k >= 0 else 0) for k, bk in enumerate(b)) - sum(ak * (y[n - k] if n - k >= 0 else 0) for k, ak in enumerate(a) if k >= 1)
+            y.append(acc / a[0])
+        return y
+    for b, a in (([F(1), F(3)], [F(3, 4), F(-1, 2)]), ([F(1, 2)], [F(3, 2)]), ([F(2), F(-1, 3)], [F(-5, 4), F(1, 2), F(1, 8)]), ([F(1)], [F(7, 3)])):
+        def fq():
+            got = list(ZFilter(list(b), list(a))(list(xq), zero=0))
+            exp = exact(b, a, xq)
+            ok1 = len(got) == len(exp) and all(abs(float(g) - float(e)) < 1e-9 * max(1, abs(float(e))) for g, e in zip(got, exp))
+            f, g = ZFilter([1, 3]), ZFilter(list(b), list(a))
+            got2 = list(((f / g) * g)(list(xq), zero=0))
+            exp2 = exact([F(1), F(3)], [F(1)], xq)
+            ok2 = all(abs(float(u) - float(v)) < 1e-7 * max(1, abs(float(v))) for u, v in zip(got2, exp2))
+            return ok1 and ok2, "filter with rational coefficients b=%r a=%r: output %r, exact model %r" % ([str(v) for v in b], [str(v) for v in a], got[:4], [str(v) for v in exp[:4]])
+        R.guard("rational-coefficient-filters-compute-their-difference-equation", {"b": [str(v) for v in b], "a": [str(v) for v in a]}, fq)
     for k in range(0, 4):
         R.guard("z**-k-delays-by-k", {"k": k}, lambda: (sig_eq(run_(z ** -k, xs), [0] * k + xs[:len(xs) - k]), "delay"))
     # ---- (c) == / != / hash
